@@ -39,6 +39,9 @@ package accounting
 //@   requires acctOK(a)
 //@   let rec0 = recOf(a, peer)
 //@   let unpaid0 = ite(recOf(a, peer) == nil, 0, bigval(recOf(a, peer).unPaidTraffic))
+//@   # looking the record up, asking the settlement for the start value and entering the new record
+//@   # are one critical section of the table lock: two first contacts of one peer cannot both create a record
+//@   callassert Interface.RetrieveTraffic start-value-fetched-under-the-table-lock: lockedw(a)
 //@   ensures found: result1 == nil ==> result0 != nil && result0 == recOf(a, peer) && result0.unPaidTraffic != nil && result0.paymentThreshold != nil && bigval(result0.unPaidTraffic) >= 0
 //@   ensures existing-record-untouched: rec0 != nil ==> result1 == nil && result0 == rec0 && bigval(rec0.unPaidTraffic) == unpaid0
 //@   ensures failed-adds-nothing: result1 != nil ==> recOf(a, peer) == rec0
